@@ -98,8 +98,7 @@ theorem C01_track_commits (c : Cfg) (o : TrackOpts) (s : St) (p : Path) (b : Byt
   simp only [hnew, hc, Bool.false_eq_true, if_false, hf]
   refine ⟨?_, ?_, ?_⟩
   · rw [carryOne_recs]
-    refine ⟨{ path := p, md := .stamp st, digests := [digestOf c.algo (o.tob.getD c.tob) b],
-              method := o.method.getD c.method, tob := o.tob.getD c.tob }, ?_, rfl, rfl, rfl, rfl⟩
+    refine ⟨newRec p st (digestOf c.algo (o.tob.getD c.tob) b) (o.method.getD c.method) (o.tob.getD c.tob), ?_, rfl, rfl, rfl, rfl⟩
     simp
   · intro hnone
     exact carryOne_moves _ p _ _ b w st l (by simpa using hw) (by simpa using hnone)
